@@ -95,8 +95,7 @@ fn er(_: &mut Zw, x: String) -> Result<(), String> {
 }
 #[given(regex = r"^ctx (\w+)$")]
 async fn ctx(_: &mut Zw, #[step] st: &Step, x: String) {
-    let _ = st;
-    log(format!("ctx|<step>|{x}"));
+    log(format!("ctx|{}|{x}", sdisp(st)));
 }
 #[given(regex = r"^multi$")]
 #[when(regex = r"^multi$")]
@@ -131,13 +130,11 @@ async fn rng(_: &mut Zw, r: Range, a: Animal, b: Animal) -> Result<(), String> {
 }
 #[then(regex = r"^slice ctx (\w+) (\w+)$")]
 fn slctx(_: &mut Zw, #[step] st: &Step, v: &[String]) {
-    let _ = st;
-    log(format!("slctx|<step>|{}", v.iter().map(|x| format!("{x},")).collect::<String>()));
+    log(format!("slctx|{}|{}", sdisp(st), v.iter().map(|x| format!("{x},")).collect::<String>()));
 }
 #[when("literal with step")]
 fn litstep(_: &mut Zw, #[step] st: &Step) {
-    let _ = st;
-    log("litstep|<step>".into());
+    log(format!("litstep|{}", sdisp(st)));
 }
 #[then(expr = "I eat {string} and {float}")]
 fn strf(_: &mut Zw, s: String, f: f64) {
@@ -205,13 +202,32 @@ fn only2(_: &mut Zw2) {
     log("only2".into());
 }
 
+thread_local! {
+    /// Every probe's step carries a doc string of its own (`doc#<n>`, n counting the probes of the process): a `#[step]`
+    /// argument must be THE step being run — same keyword, text and position as an earlier probe, but its own attachments.
+    static PROBE_NO: std::cell::Cell<u64> = const { std::cell::Cell::new(0) };
+    static EXPECT_DOC: RefCell<String> = const { RefCell::new(String::new()) };
+}
+/// What a function displays for its `#[step]` argument: `<step>` iff it was handed the step of THIS probe.
+fn sdisp(st: &Step) -> &'static str {
+    let ok = EXPECT_DOC.with(|d| st.docstring.as_deref() == Some(d.borrow().as_str()));
+    if ok { "<step>" } else { "<step:STALE>" }
+}
 fn step(ty: u64, text: &str) -> Step {
     let ty = match ty {
         0 => gherkin::StepType::Given,
         1 => gherkin::StepType::When,
         _ => gherkin::StepType::Then,
     };
-    crate::util::step(ty, text, 1)
+    let mut st = crate::util::step(ty, text, 1);
+    let n = PROBE_NO.with(|c| {
+        c.set(c.get() + 1);
+        c.get()
+    });
+    let doc = format!("doc#{n}");
+    EXPECT_DOC.with(|d| d.borrow_mut().clone_from(&doc));
+    st.docstring = Some(doc);
+    st
 }
 
 fn probe<W: World + Default>(coll: &cucumber::step::Collection<W>, p: &Value) -> Value {
